@@ -1,5 +1,6 @@
 import SqlgrepModel.Lemmas.JoinRefine
 import SqlgrepModel.Lemmas.JoinNames
+import SqlgrepModel.Lemmas.JoinBatch
 /-
 C05 — JOIN pairs exactly the rows with equal join keys.
 
@@ -139,6 +140,17 @@ theorem aggregate_outer_is_inner (O : Oracles) (qy : Query) (j : JoinInfo) (q : 
   simp only
   rw [this]
 
+/-- **Refinement, whole batch run.** Whenever the executable specification (`Spec.Join.batch`: the statement's
+engine — WHERE, projections, DISTINCT, aggregation — fed with the nested loop's rows, line by line) answers a
+batch run of a statement with a join, the model's `runBatch` over the hash index gives exactly that answer:
+same records in the same order, same line count. (The specification declines — `none` — only where C05 does
+not fix the outcome: LIMIT, unreadable lines, evaluation errors.) This is the theorem behind the driver's
+`MODEL ## SPEC` pair. -/
+theorem batch_run_is_nested_loop_run (O : Oracles) (qy : Query) (joined : List FileLine) (files : List (List FileLine))
+    (ro : RunOut) (cls : String) (h : Spec.Join.batch O qy joined files = some (ro, cls)) :
+    runBatch O qy joined files none = ro :=
+  batch_spec_eq_runBatch O qy joined files ro cls h
+
 /-! ### names -/
 
 /-- **both sides addressable**: in a joined row every column of the queried table is addressable by its plain
@@ -210,5 +222,8 @@ example : (partners exQ exJ (admittedRows exJoined) ⟨[], [.text [97], .int 7, 
 -- a NULL key on the queried side has no partner although the joined file has a NULL key
 example : (partners exQ exJ (admittedRows exJoined) ⟨[], [.null, .int 7, .null]⟩).length = 0 := by decide
 example : keysMatch (.text [97]) (.text [97]) = true ∧ keysMatch .null .null = false := by decide
+-- the specification does answer a non-trivial run (OUTER JOIN, fan-out 2, one padded row)
+example : (Spec.Join.batch default exQ (exJoined.map (fun l => ⟨true, l⟩))
+    [[⟨true, ⟨[], [.text [97], .int 7, .null]⟩⟩, ⟨true, ⟨[], [.text [122], .int 8, .null]⟩⟩]]).isSome = true := by decide
 
 end Sqlgrep.Props.C05
